@@ -146,10 +146,22 @@ func (x *Exec) doCallWith(st *State, fi int, c *ssa.CallCommon, site ssa.Instruc
 	if c.Signature().Results().Len() == 1 {
 		resT = c.Signature().Results().At(0).Type()
 	}
-	x.ghostAt(st, fi, anchor, "before", nil)
+	// ghost statements at the site see the call's arguments as arg0..argN
+	// (static method calls: arg0 is the receiver) and, for interface calls, recv
+	argVals := map[string]Value{}
+	for i, a := range args {
+		if a.T.S == "" && (a.Fn != nil || a.Loc != nil) {
+			continue
+		}
+		argVals[fmt.Sprintf("arg%d", i)] = a
+	}
+	if c.IsInvoke() {
+		argVals["recv"] = fv
+	}
+	x.ghostAtX(st, fi, anchor, "before", nil, argVals)
 	k0 := k
 	k = func(st2 *State, res Value) {
-		x.ghostAt(st2, fi, anchor, "", &res)
+		x.ghostAtX(st2, fi, anchor, "", &res, argVals)
 		k0(st2, res)
 	}
 	// panic continuation: unwind the calling frame
@@ -328,7 +340,7 @@ func (x *Exec) applyContract(st *State, fi int, ct *Contract, callee *ssa.Functi
 		}
 	}
 	// a method contract header lists the parameters without the receiver
-	if len(names) > 0 && len(names) == len(args)-1 {
+	if len(names) == len(args)-1 && (len(names) > 0 || callee == nil || len(callee.Params) == len(args)) {
 		recvName := "self"
 		if callee != nil && len(callee.Params) == len(args) {
 			recvName = callee.Params[0].Name()
@@ -347,6 +359,18 @@ func (x *Exec) applyContract(st *State, fi int, ct *Contract, callee *ssa.Functi
 	for _, rq := range ct.Requires {
 		if t, ok := x.evalClause(st, env, rq); ok {
 			x.oblige(st, "requires", rq.Label, anchor, t, pos)
+		}
+	}
+	// a locked callee sees the protected state as of its own lock acquisition
+	if g, root := x.calleeGuard(ct, callee); g != nil && len(args) > 0 && args[0].T.Sort == "Ref" {
+		held := false
+		for _, h := range st.locks {
+			if h.guard == g && h.obj.S == args[0].T.S {
+				held = true
+			}
+		}
+		if !held {
+			x.havocFootprint(st, fi, g, args[0].T, root)
 		}
 	}
 	preHeap := copyHeap(st.heap)
@@ -411,6 +435,34 @@ func (x *Exec) applyContract(st *State, fi int, ct *Contract, callee *ssa.Functi
 		}
 		penv.heap, penv.epoch, penv.now = st2.heap, st2.epoch, st2.now
 		penv.old, penv.oldEpoch, penv.oldNow = preHeap, preEpoch, preNow
+		penv.entryHeap, penv.entryEpoch, penv.entryNow, penv.hasEntry = preHeap, preEpoch, preNow, true
+		doEmits := func(list []string) {
+			for _, em := range list {
+				func() {
+					defer func() {
+						if r := recover(); r != nil {
+							if se, ok := r.(specError); ok {
+								x.errorf("emits of %s: %s", ct.Key, se.msg)
+								return
+							}
+							panic(r)
+						}
+					}()
+					penv.where = "emits of " + ct.Key
+					cond := TrueT
+					text := em
+					if j := strings.Index(em, " if "); j >= 0 {
+						text = strings.TrimSpace(em[:j])
+						cond = penv.EvalBool(strings.TrimSpace(em[j+4:]))
+					}
+					ev := penv.EvalText(text)
+					x.emit(st2, ev.T, cond)
+					penv.heap = st2.heap
+				}()
+			}
+		}
+		// events appended on both the normal and the panicking outcome
+		doEmits(ct.Emits)
 		if panicked {
 			for _, en := range ct.EnsPanic {
 				if t, ok := x.evalClause(st2, &penv, en); ok {
@@ -440,6 +492,7 @@ func (x *Exec) applyContract(st *State, fi int, ct *Contract, callee *ssa.Functi
 			}
 		}
 		x.bindResults(&penv, ct, callee, resVals)
+		doEmits(ct.EmitsOK)
 		for _, en := range ct.Ensures {
 			if t, ok := x.evalClause(st2, &penv, en); ok {
 				st2.assume(t)
